@@ -23,3 +23,60 @@ package couchbase
 //@ requires v != nil && ov != nil
 //@ ensures.lex[C18] result == lexGreater(ov.Major, ov.Minor, ov.Patch, ov.Build, v.Major, v.Minor, v.Patch, v.Build)
 //@ modifies nothing
+
+// ---------- rollback mitigation (C07) ----------
+
+//@ func (*rollbackMitigation).getMinSeqNo
+//@ props C07
+//@ requires r != nil && r.persistedSeqNos != nil
+//@ requires forall j int :: 0 <= j && j < len(r.persistedSeqNos[vbID]) ==> r.persistedSeqNos[vbID][j] != nil
+//@ let reps = old(ite(has(r.persistedSeqNos, vbID), r.persistedSeqNos[vbID], nil))
+//@ let n = len(reps)
+//@ loop 1
+//@   invariant.notfound startIndex == -1 && -1 <= rangeindex && rangeindex <= n - 1
+//@   invariant.absent forall j int :: 0 <= j && j <= rangeindex ==> reps[j].absent
+//@ loop 2
+//@   invariant.range 0 <= startIndex && startIndex < idx && idx <= n
+//@   invariant.first !reps[startIndex].absent && vbUUID == reps[startIndex].vbUUID
+//@   invariant.before forall j int :: 0 <= j && j < startIndex ==> reps[j].absent
+//@   invariant.agree forall j int :: startIndex <= j && j < idx && !reps[j].absent ==> reps[j].vbUUID == vbUUID && reps[j].seqNo >= minSeqNo
+//@   invariant.attained exists j int :: startIndex <= j && j < idx && !reps[j].absent && reps[j].seqNo == minSeqNo
+//@ ensures.sound[C07] result != 0 ==> forall j int, k int :: 0 <= j && j < n && 0 <= k && k < n && !reps[j].absent && !reps[k].absent ==> reps[j].vbUUID == reps[k].vbUUID && reps[j].seqNo >= result
+//@ ensures.attained[C07] result != 0 ==> exists j int :: 0 <= j && j < n && !reps[j].absent && reps[j].seqNo == result
+//@ ensures.allabsent[C07] (forall j int :: 0 <= j && j < n ==> reps[j].absent) ==> result == 0
+//@ ensures.mismatch[C07] (exists j int, k int :: 0 <= j && j < n && 0 <= k && k < n && !reps[j].absent && !reps[k].absent && reps[j].vbUUID != reps[k].vbUUID) ==> result == 0
+//@ ensures.min[C07] (exists j int :: 0 <= j && j < n && !reps[j].absent) && (forall j int, k int :: 0 <= j && j < n && 0 <= k && k < n && !reps[j].absent && !reps[k].absent ==> reps[j].vbUUID == reps[k].vbUUID) ==> (forall j int :: 0 <= j && j < n && !reps[j].absent ==> reps[j].seqNo >= result) && (exists j int :: 0 <= j && j < n && !reps[j].absent && reps[j].seqNo == result)
+//@ modifies nothing
+
+//@ func (*vbUUIDAndSeqNo).IsOutdated
+//@ props C07
+//@ requires v != nil && last != nil
+//@ ensures.outdated[C07] result == (!v.absent && (v.vbUUID != last.VbUUID || v.seqNo != last.PersistSeqNo))
+//@ modifies nothing
+
+//@ func (*observer).SetPersistSeqNo
+//@ props C07
+//@ requires so != nil
+//@ ensures.monotone[C07] so.persistSeqNo == ite(persistSeqNo != 0 && persistSeqNo > old(so.persistSeqNo), persistSeqNo, old(so.persistSeqNo))
+//@ modifies so.persistSeqNo
+
+//@ func (*observer).needCatchup
+//@ props C08
+//@ requires so != nil
+//@ ensures.done[C08] !old(so.isCatchupNeed) ==> result == false && so.isCatchupNeed == false
+//@ ensures.below[C08] old(so.isCatchupNeed) && seqNo < so.catchupSeqNo ==> result == true && so.isCatchupNeed == true
+//@ ensures.at[C08] old(so.isCatchupNeed) && seqNo == so.catchupSeqNo ==> result == true && so.isCatchupNeed == false
+//@ ensures.above[C08] old(so.isCatchupNeed) && seqNo > so.catchupSeqNo ==> result == false && so.isCatchupNeed == false
+//@ modifies so.isCatchupNeed
+
+//@ func (*observer).SetCatchup
+//@ props C08
+//@ requires so != nil
+//@ ensures.set[C08] so.catchupSeqNo == seqNo && so.isCatchupNeed == true
+//@ modifies so.catchupSeqNo, so.isCatchupNeed
+
+//@ func (*observer).SetVbUUID
+//@ props C06 C08
+//@ requires so != nil
+//@ ensures.set so.vbUUID == vbUUID
+//@ modifies so.vbUUID
